@@ -281,9 +281,10 @@ pub struct HistCase {
 
 /// Table names, and the pool column names are drawn from: they overlap with
 /// each other and with the strings creation writes into `_Validation`
-/// ("Y", "N", category names) on purpose.
-const HT: [&str; 4] = ["Tab", "Other", "x", "Identifier"];
-const HC: [&str; 10] = ["k", "a", "b", "x", "Tab", "Name", "Y", "N", "Text", "Other"];
+/// ("Y", "N", category names) on purpose, and `Tab` + `x.k` spells the same
+/// dotted path as `Tab.x` + `k` (identifiers may contain periods).
+const HT: [&str; 4] = ["Tab", "Tab.x", "x", "Identifier"];
+const HC: [&str; 10] = ["k", "a", "x.k", "x", "Tab", "Name", "Y", "N", "x.a", "Other"];
 
 fn hist_compare(pkg: &Package<SharedBuf>, model: &std::collections::BTreeMap<String, Vec<ColDef>>, when: &str, trace: &str) -> Check {
     let mut listed: Vec<String> = pkg.tables().map(|t| t.name().to_string()).filter(|n| !n.starts_with('_')).collect();
